@@ -53,6 +53,7 @@ func ids(n int) []uint16 {
 }
 
 type out struct {
+	dup       *scen.Result // refused-duplicate: the second call of the same operation
 	retry     map[uint16]*scen.Result
 	res       map[uint16]*scen.Result
 	sendCount map[uint16]int
@@ -99,6 +100,10 @@ func run(c *harness.C, k cfg, f fault, r world.Chooser) *out {
 				if p.From == f.Peer && cnt[p.From] > f.K {
 					return nil
 				}
+			case "refused-duplicate":
+				if p.From == f.Peer {
+					return nil
+				}
 			case "withhold":
 				if total == f.K {
 					return nil
@@ -125,7 +130,7 @@ func run(c *harness.C, k cfg, f fault, r world.Chooser) *out {
 		}
 		for _, id := range members {
 			// a peer that is silent from the start (k = 0) does not even take part
-			if f.Kind == "silent-after" && f.K == 0 && id == f.Peer {
+			if (f.Kind == "silent-after" && f.K == 0 || f.Kind == "refused-duplicate") && id == f.Peer {
 				continue
 			}
 			p := w.Parties[id]
@@ -169,6 +174,27 @@ func run(c *harness.C, k cfg, f fault, r world.Chooser) *out {
 				cancels[id] = scen.StartSign(w, p, rs, fmt.Sprint(id), []byte("digest-c11"), "topic-c11", deadline)
 			}
 		}
+		if f.Kind == "refused-duplicate" {
+			// a local precondition fails: while party 1's call is stuck (peer f.Peer vanished), the
+			// same operation is invoked again on party 1 (same topic / second key generation); it is
+			// refused - and neither call may block beyond its deadline because of that
+			step := 0
+			fired := false
+			w.Extra = func() []world.Event {
+				step++
+				if !fired && step > f.K {
+					fired = true
+					return []world.Event{{Label: "duplicate call at 1", Do: func() {
+						if k.Op == "keygen" {
+							scen.StartKeyGen(w, w.Parties[1], rs, "dup", k.N, k.N, deadline)
+						} else {
+							scen.StartSign(w, w.Parties[1], rs, "dup", []byte("digest-c11"), "topic-c11", deadline)
+						}
+					}}}
+				}
+				return nil
+			}
+		}
 		if f.Kind == "cancel" {
 			step := 0
 			fired := false
@@ -184,7 +210,12 @@ func run(c *harness.C, k cfg, f fault, r world.Chooser) *out {
 				return nil
 			}
 		}
-		w.Loop(r, w.Now()+deadline+2*probe)
+		horizon := deadline + 2*probe
+		if f.Kind == "refused-duplicate" {
+			horizon += deadline // the duplicate call has a deadline of its own
+		}
+		w.Loop(r, w.Now()+horizon)
+		o.dup = rs.Get("dup")
 		for _, id := range members {
 			o.res[id] = rs.Get(fmt.Sprint(id))
 			if o.res[id] != nil && o.res[id].Returned {
@@ -262,6 +293,19 @@ func oracle(c *harness.C, k cfg, f fault, o *out) {
 	}
 }
 
+func dupOracle(c *harness.C, k cfg, f fault, o *out) {
+	if f.Kind != "refused-duplicate" {
+		return
+	}
+	if o.dup == nil {
+		c.Note("c11-dup", "the duplicate call was never issued (session ended first)")
+		return
+	}
+	if !o.dup.Returned {
+		c.Violation("returns-by-deadline", fmt.Sprintf("c11-duplicate-call-never-returns:%s/%s/%s", k.Stack, k.Mode, k.Op), fmt.Sprintf("%s %s: the second %s call on party 1 (issued while the first was waiting for a vanished peer) has not returned after its deadline", k, f, k.Op), replay{k, f})
+	}
+}
+
 func retryOracle(c *harness.C, k cfg, f fault, o *out) {
 	for id, r := range o.retry {
 		if r == nil {
@@ -294,6 +338,7 @@ func cell(c *harness.C, k cfg, f fault) *out {
 	c.Add("executions", 1)
 	c.Add("transitions", len(o.trace))
 	oracle(c, k, f, o)
+	dupOracle(c, k, f, o)
 	retryOracle(c, k, f, o)
 	if c.Outcome(k.String() + "|" + f.Kind + "|" + outcomeKey(o) + "|" + fmt.Sprint(o.steps)) {
 		c.Sample("c11", map[string]interface{}{"cfg": k.String(), "fault": f.String(), "outcome": outcomeKey(o), "steps": o.steps})
@@ -364,6 +409,15 @@ func gen(c *harness.C) []harness.Case {
 						}
 						cell(c, k, fault{Kind: "cancel", Peer: 1, K: kk})
 					}
+				}})
+			}
+		}
+		if k.Stack == "S" {
+			// a refused duplicate call at every 4th big step of a session whose third peer vanished
+			for kk := 0; kk <= base.steps/2; kk += 4 {
+				kk := kk
+				cases = append(cases, harness.Case{ID: fmt.Sprintf("%s/refused-duplicate/%d", k, kk), Run: func(c *harness.C) {
+					cell(c, k, fault{Kind: "refused-duplicate", Peer: uint16(k.N), K: kk})
 				}})
 			}
 		}
